@@ -246,6 +246,12 @@ pub fn profile_for(prop: &str, cancelable: bool, rng: &mut Rng) -> Profile {
         }
         _ => {}
     }
+    // user code that panics inside tracing scopes (contained by its caller)
+    w.unwind = match prop {
+        "C01" | "C07" | "C10" | "C13" | "C14" => 4,
+        "C02" | "C03" | "C04" | "C05" | "C06" | "C11" | "C16" | "C17" | "C18" => 2,
+        _ => 0,
+    };
     pf.w = w;
     pf
 }
